@@ -80,9 +80,28 @@ func TestVerifC15(t *testing.T) {
 			wg.Add(1)
 			go worker(id + r) // different first operations in different rounds
 		}
+		// directory rollover (a directory reaches the limit of 100 entries and is replaced) while the
+		// collector and the worker pool delete files of superseded versions: the directory table is
+		// written by the Sets and by the deletions
+		wg.Add(2)
+		go func() {
+			defer wg.Done()
+			<-start
+			for i := 0; i < 230; i++ {
+				im.d.Set(im.ctx, fmt.Sprintf("roll-%d-%d", r, i), []byte("x"))
+				im.d.Set(im.ctx, "hot", []byte(fmt.Sprint(i)))
+			}
+		}()
+		go func() {
+			defer wg.Done()
+			<-start
+			for i := 0; i < 120; i++ {
+				im.d.container.Cleaner().DeleteOld(im.ctx)
+			}
+		}()
 		close(start)
 		wg.Wait()
-		ops += n * 25
+		ops += n*25 + 580
 		drainPool()
 		im.close()
 		os.RemoveAll(dir)
